@@ -115,6 +115,36 @@ CHECKS.update({
         engine="frontends"),
 })
 
+CHECKS.update({
+    "C02": dict(
+        category="model_checking",
+        text="Determinism.tla is the self-composition of two runs with the emission disciplines of the code (source order, sorted, "
+             "range over a map): Deterministic holds for the first two and is refuted for map iteration with >= 2 keys. The places that "
+             "emit while ranging over a map are extracted from the working tree. The real checkers analyse the same corpus (example "
+             "files + multi-trigger adversarial files) repeatedly - one long-lived set in a different file order per pass, newly "
+             "constructed sets with overlapping user rule files - and TraceLifecycle.tla validates the recorded execution with the first "
+             "observation of every (checker, file) as reference; the real binary is run repeatedly at several -concurrency values "
+             "(byte-identical output) and parallel analyzer passes are repeated in one process.",
+        design_ref="DESIGN.md section 6 C02",
+        note="Probabilistic for map-order dependence: k >= 2 keys and R repetitions expose it with probability >= 1 - 2^-(R-1).",
+        technique="TLA+ self-composition + repeated-execution trace validation against the first run",
+        engine="lifecycle"),
+    "C16": dict(
+        category="model_checking",
+        text="Paths.tla: all 50 625 layouts of (working directory, GOPATH, GOROOT, file) over two segment names up to depth 3 are initial "
+             "states; RoundTrip (the printed location resolves to the file) holds for the prefix-based shortening and is refuted for "
+             "first-occurrence replacement; the filter table (header class x test file x flags, three-valued Generated) likewise. Every "
+             "exported layout is run through the real shortenLocation of both command packages, every header class through the real "
+             "isGenerated, and the real binary is run on materialised workspaces (same base names in two packages with different "
+             "verdicts, odd directory names, nested-path and GOPATH layouts, exit codes): each printed location must resolve to an "
+             "existing file, each file is reported iff it is neither a skipped test nor generated, exit status = configured code iff "
+             "something was printed.",
+        design_ref="DESIGN.md section 6 C16, Appendix A.4",
+        note="Header classes midLine / afterPackage / block are unconstrained.",
+        technique="exhaustive TLC sweep of path layouts + replay on the real routines + end-to-end runs",
+        engine="paths"),
+})
+
 NOT_YET = "check not built yet (construction in progress; see DESIGN.md section 6)"
 NOT_APPLICABLE = {}
 
